@@ -279,6 +279,20 @@ def sx_bytes(*args):
         return _wrap(_norm_items(x), False)
     if _is_sym(x):
         return _bytes(x.__index__())
+    if len(args) == 1 and not _isinstance(
+            x, (_bytes, _bytearray, _memoryview, str, _int, list, tuple)):
+        # user class with __bytes__ (e.g. rcs380.Frame): the C-level bytes()
+        # insists on a real bytes result, but inside shimmed modules
+        # __bytes__ may legitimately produce a SymBytes
+        meth = getattr(_type(x), "__bytes__", None)
+        if meth is not None:
+            r = meth(x)
+            if _isinstance(r, SymBytes):
+                return _wrap(list(r.items), False)
+            if not _isinstance(r, _bytes):
+                raise TypeError("__bytes__ returned non-bytes (type %s)"
+                                % _type(r).__name__)
+            return r
     return _bytes(*args)
 
 
@@ -416,6 +430,25 @@ def sx_mod(fmt, args):
             for a in tup):
         return fmt % args
     return SymFmt(fmt, tup)
+
+
+def sx_join(sep, seq):
+    """`b"literal".join(seq)`: bytes.join itself unless an element is a
+    SymBytes (then the same concatenation on items; result is immutable like
+    bytes.join's)."""
+    seq = list(seq)
+    if not any(_isinstance(x, SymBytes) for x in seq):
+        return sep.join(seq)
+    out = []
+    for i, x in enumerate(seq):
+        it = _items_of(x)
+        if it is None:
+            raise TypeError("sequence item %d: expected a bytes-like object, "
+                            "%s found" % (i, _type(x).__name__))
+        if i:
+            out.extend(sep)
+        out.extend(it)
+    return _wrap(out, False)
 
 
 # ---------------------------------------------------------------- struct shim
